@@ -54,7 +54,11 @@ def roundtrip_case(ctx: Ctx, module, meta: dict[str, Any], cases, metas):
     meta = dict(meta, has_block_hints=bool(bh), default_like_block_hint=any(_re.fullmatch(r"bb\d+", h) for h in bh))
     text, printer = print_generic(module)
     text2, _ = print_generic(module)
-    text_clone, _ = print_generic(module.clone())
+    try:
+        text_clone, _ = print_generic(module.clone())
+    except Exception as e:  # noqa: BLE001   cloning is C02's subject; here it only means the clone's text cannot be compared
+        ctx.diverge("clone() of a verified module raised", error=f"{type(e).__name__}: {str(e)[:120]}", **{k: v for k, v in meta.items() if k in ("source", "file")})
+        text_clone = text
     flags = {"twice": int(text == text2), "clone": int(text == text_clone)}
     # printed names per value: injective inside the module (isolated-from-above scopes only shrink the set)
     names = list(printer._ssa_values.values())  # pyright: ignore
